@@ -154,6 +154,20 @@ theorem purge_exact (id : Nat) (buf : List (Option Nat × Nat)) :
     socket; the rig replays exactly that history (`ackAcrossSockets`) -/
 theorem server_ack_ids_from_namespace_counter : Gen.sioServerAckIdFromNamespace = true := by decide
 
+/-- one counter, read-and-incremented under its mutex: the ids handed out - to whichever sockets of the namespace, in whatever
+    interleaving - are the numbers start, start+1, ... and pairwise distinct, so no two events of a namespace share an ack id -/
+def handOut (start n : Nat) : List Nat := (List.range n).map (start + ·)
+
+theorem counter_ids_distinct (start n : Nat) : (handOut start n).Nodup := by
+  unfold handOut
+  exact List.Pairwise.map _ (fun a b (h : a ≠ b) => by omega) (List.nodup_range (n := n))
+
+theorem counter_ids_distinct_across_sockets (start n : Nat) (owner : Nat → Nat) (i j : Nat) (hi : i < n) (hj : j < n)
+    (hne : i ≠ j) : (handOut start n)[i]'(by simp [handOut, hi]) ≠ (handOut start n)[j]'(by simp [handOut, hj]) := by
+  have _ := owner
+  simp only [handOut, List.getElem_map, List.getElem_range]
+  omega
+
 /-! non-vacuity: a race with a duplicate and an invented reply -/
 example : ((sys true).run {} [.reply 5, .reply 5, .timer, .reply 9]).map (fun p => p.1.invocations) = some [.reply 5] := by decide
 
